@@ -194,11 +194,13 @@ func Import(r *ExportedReqs) (*ReqRoot, error) {
 		case ObjectSet:
 			n := new(objectSet)
 			if err := n.importReqs(rg, req.Node, req.Name, req.Req); err != nil {
+				rg.Close()
 				return nil, err
 			}
 		case ObjectMax:
 			n := new(objectMax)
 			if err := n.importReqs(rg, req.Node, req.Name, req.Req); err != nil {
+				rg.Close()
 				return nil, err
 			}
 		}
